@@ -35,6 +35,31 @@ fn sign_events<V: Fv>(proc_id: u64, seed: u64, nthreads: usize, per: usize, nkey
     for h in handles {
         all.extend(h.join().unwrap());
     }
+    // histories in which a DETERMINISTIC operation precedes signing on the same thread: keygen from one fixed seed (the same in
+    // every process and thread: an application that re-derives its key at start-up), and loading that key from bytes.  The salts
+    // must still be fresh across all of them.
+    let fixed: [u8; 32] = [0x5a; 32];
+    let mut hs = vec![];
+    for t in 0..3usize {
+        hs.push(std::thread::spawn(move || {
+            let mut evs = vec![];
+            let (sk, pk) = V::keygen(fixed);
+            let skb = V::sk_to_bytes(&sk);
+            for i in 0..12usize {
+                let sk_used = if i == 6 { V::sk_from_bytes(&skb).unwrap() } else if i == 9 { V::keygen(fixed).0 } else { sk.clone() };
+                let msg = format!("message-{}", i % 2).into_bytes();
+                let sig = V::sign(&msg, &sk_used);
+                let b = V::sig_to_bytes(&sig);
+                evs.push(json!({"ev":"sign","proc":proc_id,"thr":100 + t,"seq":i,"n":V::N,"key":99,"msg":i % 2,
+                                "hdr":b[0],"salt":bytes_json(&b[1..41]),"siglen":b.len(),"verified":V::verify(&msg, &sig, &pk),
+                                "body_sha3":sha3_hex(&b[41..])}));
+            }
+            evs
+        }));
+    }
+    for h in hs {
+        all.extend(h.join().unwrap());
+    }
     all
 }
 
@@ -231,6 +256,34 @@ pub fn c15(args: &Args) {
     let outs = run_children("c15", args, &dir, 2, &[]);
     let mut evs = keygen_events::<V512>(0, seed, if thorough { 4 } else { 2 }, 256, true);
     evs.extend(keygen_events::<V1024>(0, seed, 1, if thorough { 256 } else { 32 }, true));
+    // histories that differ only in what the thread did BEFORE: a batch of seeds on a fresh thread, the same batch on a thread that
+    // first generated a key of the other variant, and on a thread that first signed -- all must give identical keys (state shared
+    // between the variants' key generators or between keygen and sign)
+    {
+        let count = if thorough { 64u8 } else { 24 };
+        let count1024 = if thorough { 12u8 } else { 4 };
+        let mut hs = vec![];
+        hs.push(std::thread::spawn(move || (0..count).map(|i| keygen_event::<V512>(0, 40, i as usize, [i; 32], "fresh-thread")).collect::<Vec<_>>()));
+        hs.push(std::thread::spawn(move || {
+            let mut v = vec![keygen_event::<V1024>(0, 41, 0, [3; 32], "other-variant-first")];
+            v.extend((0..count).map(|i| keygen_event::<V512>(0, 41, 1 + i as usize, [i; 32], "after-other-variant")));
+            v
+        }));
+        hs.push(std::thread::spawn(move || {
+            let (sk, _) = V1024::keygen([5; 32]);
+            let _ = V1024::sign(b"warm up", &sk);
+            (0..count).map(|i| keygen_event::<V512>(0, 42, i as usize, [i; 32], "after-other-variant-sign")).collect::<Vec<_>>()
+        }));
+        hs.push(std::thread::spawn(move || (0..count1024).map(|i| keygen_event::<V1024>(0, 43, i as usize, [i; 32], "fresh-thread")).collect::<Vec<_>>()));
+        hs.push(std::thread::spawn(move || {
+            let mut v = vec![keygen_event::<V512>(0, 44, 0, [3; 32], "other-variant-first")];
+            v.extend((0..count1024).map(|i| keygen_event::<V1024>(0, 44, 1 + i as usize, [i; 32], "after-other-variant")));
+            v
+        }));
+        for h in hs {
+            evs.extend(h.join().unwrap());
+        }
+    }
     let mut all = String::new();
     for e in &evs {
         all.push_str(&serde_json::to_string(e).unwrap());
